@@ -129,7 +129,7 @@ pub fn def() -> PropDef {
         title: "The trigram index returns exactly the records sharing a gram, best first",
         rule: "random stores built by 0-700 adds (titles of 1-3 words over a tiny vocabulary, duplicates, empty titles, one-letter words, some general titles), sizes {0,1,2,3,10,65}, 1-3 queries (vocabulary words, prefixes, two words); in 40% of the cases with size > 0 the store is built larger than 10*size so that the cap is crossed. Shared-gram counts are recomputed from the public tokeniser with an own gram function and BTreeSet intersection. Non-trivial = capped case, or records with different positive shared counts; distinct = distinct case",
         assumptions: &["gram = 1-letter word start, 2-letter word start, every 3-letter window of a normalised word"],
-        spaces: vec![Space { name: "index", decode, plan: |t| Plan::Random(t.n(30_000, 1_000_000)) }],
+        spaces: vec![Space { name: "index", decode, plan: |t| Plan::Random(t.n(120_000, 2_000_000)) }],
         differential: false,
     }
 }
